@@ -258,6 +258,13 @@ def classify(fam, lab, o, why):
     if site == "controlConn.heartBeat" and cls == "unknown-frame-in-response-to-options":
         return "control-heartbeat-unexpected-frame-panic"
     if cls == "stack-overflow":
+        cycle = site + " " + via
+        if re.search(r"awaitSchemaAgreement|querySystemPeers|Conn\.query\b", cycle):
+            return "unbounded-recursion-schema-change-answer"
+        if "executeBatch" in site:
+            return "unbounded-recursion-unprepared-batch"
+        if "executeQuery" in site:
+            return "unbounded-recursion-unprepared-query"
         return "unbounded-recursion-" + _slug(site)
     return "%s-%s-%s" % (o["out"], _slug(site), cls)
 
